@@ -266,6 +266,20 @@ func runUpdate(o *Out, spec *Spec, r *Ref, m *MethodSpec) {
 				}
 				sv = field(sbase, sf.Index[0])
 			}
+			if lt := pathLeafType(SS, fs.Path); lt != nil && lt.Kind() != reflect.Ptr && sv.Kind() == reflect.Ptr && sv.Type().Elem() == lt && fs.Func == "" {
+				// a dotted path through a pointer hands the leaf over as a pointer; the SOURCE FIELD is the leaf
+				if sv.IsNil() {
+					continue // nil intermediate pointer: not constrained
+				}
+				leaf := sv.Elem()
+				if isZeroDeep(leaf) {
+					cat := zeroCategory(lt)
+					if (cat == "basic" && flags.IZBasic) || (cat == "struct" && flags.IZStruct) || (cat == "nillable" && flags.IZNillable) {
+						keep("zero-valued source field of a selected category (" + cat + ") reached by a path through a pointer")
+					}
+					continue
+				}
+			}
 			zero := isZeroDeep(sv)
 			if zero && fs.Func != "" && len(fs.Path) == 1 && fs.Path[0] == "." && funcTakesPointer(r.Callables[fs.Func], sv.Type()) {
 				// the function receives the (non-nil) source pointer of the method: that value is not zero
@@ -318,4 +332,26 @@ func funcTakesPointer(fn reflect.Value, t reflect.Type) bool {
 		}
 	}
 	return false
+}
+
+// pathLeafType returns the declared type of the last element of a dotted source path (nil if unknown).
+func pathLeafType(S reflect.Type, p []string) reflect.Type {
+	if len(p) == 0 || (len(p) == 1 && p[0] == ".") {
+		return nil
+	}
+	cur := S
+	for _, name := range p {
+		if cur.Kind() == reflect.Ptr {
+			cur = cur.Elem()
+		}
+		if cur.Kind() != reflect.Struct {
+			return nil
+		}
+		sf, ok := cur.FieldByName(name)
+		if !ok {
+			return nil
+		}
+		cur = sf.Type
+	}
+	return cur
 }
